@@ -430,6 +430,9 @@ pathLoop:
 		case c < 640:
 			if len(comps) > 0 && !(pure && len(scalars) > 0 && r.Chance(3)) {
 				op.name, op.j = "mut", pick(r, comps)
+				if r.Chance(30) {
+					op.name = "mutset"
+				}
 			} else if pure && len(scalars) > 0 && r.Chance(8) {
 				op.name, op.j = "mut", pick(r, scalars)
 				op.expectPanic = true
